@@ -260,6 +260,27 @@ def _all_int_defs(f: Func, e: ast.AST) -> bool:
     return bool(vals) and all(int_expr(v) for v in vals)
 
 
+def _const_attr_table(c: Ctx, f: Func, v: ast.AST) -> bool:
+    """v is `TABLE[key]` (or TABLE.get(key)) where TABLE is a module-level dict literal whose values are dict literals with
+    constant string keys: the attribute names are still literals."""
+    tab = None
+    if isinstance(v, ast.Subscript) and isinstance(v.value, ast.Name):
+        tab = v.value
+    elif isinstance(v, ast.Call) and isinstance(v.func, ast.Attribute) and v.func.attr == "get" and isinstance(v.func.value, ast.Name):
+        tab = v.func.value
+    if tab is None:
+        return False
+    rr = c.p.resolve_name(f.module, tab.id)
+    if not (isinstance(rr, tuple) and rr and rr[0] == "const"):
+        return False
+    d = getattr(rr[3], "value", None)
+    if isinstance(d, ast.DictComp):
+        return isinstance(d.value, ast.Dict) and all(isinstance(k, ast.Constant) and isinstance(k.value, str) for k in d.value.keys)
+    if not isinstance(d, ast.Dict):
+        return False
+    return all(isinstance(x, ast.Dict) and all(isinstance(k, ast.Constant) and isinstance(k.value, str) for k in x.keys) for x in d.values)
+
+
 def rule_vocab(c: Ctx) -> RuleResult:
     r = RuleResult("VOCAB", "every tag given to a token and every attribute name is a literal (no input character can reach a tag or attribute name)")
     for ts in token_sites(c):
@@ -293,6 +314,8 @@ def rule_vocab(c: Ctx) -> RuleResult:
                                   "discharged" if ok else "violation", "attribute names are literals" if ok else "attribute name computed from data")
                         else:
                             ok = isinstance(v, ast.Call) and isinstance(v.func, ast.Attribute) and v.func.attr == "copy"
+                            if not ok:
+                                ok = _const_attr_table(c, f, v)
                             r.add(f"{f.short}|attrs|{alpha(f, v)}", c.where(f, n), f.short, U(n)[:60],
                                   "discharged" if ok else "violation", "copy of another token's attrs" if ok else "attrs assigned from a non-literal mapping")
             if isinstance(n, ast.Call) and isinstance(n.func, ast.Attribute) and n.func.attr in ("attrSet", "attrJoin", "attrPush") \
